@@ -580,6 +580,11 @@ func HandleSetUser(cc *hotline.ClientConn, t *hotline.Transaction) (res []hotlin
 
 			c.Account.Access = account.Access
 
+			// A user who has not agreed yet has not been announced: the others learn its flags when it is.
+			if c.AwaitingAgreement {
+				continue
+			}
+
 			cc.SendAll(
 				hotline.TranNotifyChangeUser,
 				hotline.NewField(hotline.FieldUserID, c.ID[:]),
@@ -824,6 +829,10 @@ func HandleUpdateUser(cc *hotline.ClientConn, t *hotline.Transaction) (res []hot
 						c.Flags.Set(hotline.UserFlagAdmin, 0)
 					}
 
+					if c.AwaitingAgreement {
+						continue
+					}
+
 					cc.SendAll(
 						hotline.TranNotifyChangeUser,
 						hotline.NewField(hotline.FieldUserID, c.ID[:]),
@@ -979,6 +988,11 @@ func HandleGetClientInfoText(cc *hotline.ClientConn, t *hotline.Transaction) (re
 func HandleGetUserNameList(cc *hotline.ClientConn, t *hotline.Transaction) (res []hotline.Transaction) {
 	var fields []hotline.Field
 	for _, c := range cc.Server.ClientMgr.List() {
+		// The others have not been told about a user who has not agreed yet; the list does not show it either.
+		if c.AwaitingAgreement {
+			continue
+		}
+
 		b, err := io.ReadAll(&hotline.User{
 			ID:    c.ID,
 			Icon:  c.Icon,
@@ -1005,6 +1019,7 @@ func HandleTranAgreed(cc *hotline.ClientConn, t *hotline.Transaction) (res []hot
 	}
 
 	cc.Icon = t.GetField(hotline.FieldUserIconID).Data
+	cc.AwaitingAgreement = false
 
 	cc.Logger = cc.Logger.With("Name", string(cc.UserName))
 	cc.Logger.Info("Login successful")
